@@ -20,6 +20,10 @@ structure Cx where
   named : List (String × Nat) := []
   /-- the user labels defined somewhere in the program -/
   defs : List String := []
+  /-- the macros of the source program -/
+  sm : List Src.Macro := []
+  /-- the compiled macros visible to the statements being collected -/
+  cm : Macros := []
 
 /-- the environments of the translation: no macro substitution, no macro to return from, label nodes in the label zone -/
 structure EnvOK (cx : Cx) (env : Src.Env) : Prop where
